@@ -73,4 +73,250 @@ theorem getElem?_writeAt (data : List UInt8) (off : Nat) (bytes : List UInt8) (i
       · have e2 : off + bytes.length + (i - (off + bytes.length)) = i := by omega
         simp only [h2, if_false, e2]
 
+/-! ## blocks -/
+
+theorem getElem?_blockAt (data : List UInt8) (k j : Nat) :
+    (blockAt data k)[j]? = if j < 64 then data[k * 64 + j]? else none := by
+  unfold blockAt
+  simp only [List.getElem?_take, List.getElem?_drop]
+
+theorem length_blockAt (data : List UInt8) (k : Nat) (h : k * 64 + 64 ≤ data.length) :
+    (blockAt data k).length = 64 := by
+  unfold blockAt
+  simp only [List.length_take, List.length_drop]
+  omega
+
+/-- a 64-byte write at slot `k` makes block `k` equal to the written bytes -/
+theorem blockAt_writeAt_self (data : List UInt8) (k : Nat) (b : List UInt8)
+    (hb : b.length = 64) : blockAt (writeAt data (k * 64) b) k = b := by
+  apply List.ext_getElem?
+  intro j
+  rw [getElem?_blockAt, getElem?_writeAt]
+  by_cases hj : j < 64
+  · have h1 : ¬ k * 64 + j < k * 64 := by omega
+    have h2 : k * 64 + j < k * 64 + b.length := by omega
+    have e : k * 64 + j - k * 64 = j := by omega
+    simp only [hj, h1, h2, if_true, if_false, e]
+  · simp only [hj, if_false]
+    exact (List.getElem?_eq_none (by omega)).symm
+
+/-- a 64-byte write at slot `k` leaves every other complete block untouched -/
+theorem blockAt_writeAt_ne (data : List UInt8) (k : Nat) (b : List UInt8) (j : Nat)
+    (hb : b.length = 64) (hjk : j ≠ k) (hj : j * 64 + 64 ≤ data.length) :
+    blockAt (writeAt data (k * 64) b) j = blockAt data j := by
+  apply List.ext_getElem?
+  intro t
+  rw [getElem?_blockAt, getElem?_blockAt, getElem?_writeAt]
+  by_cases ht : t < 64
+  · simp only [ht, if_true]
+    by_cases hlt : j < k
+    · have h1 : j * 64 + t < k * 64 := by omega
+      have h2 : j * 64 + t < data.length := by omega
+      simp only [h1, h2, if_true]
+    · have h1 : ¬ j * 64 + t < k * 64 := by omega
+      have h2 : ¬ j * 64 + t < k * 64 + b.length := by omega
+      simp only [h1, h2, if_false]
+  · simp only [ht, if_false]
+
+/-- two `N*64`-byte lists with equal blocks are equal -/
+theorem ext_blockAt (A B : List UInt8) (N : Nat) (hA : A.length = N * 64)
+    (hB : B.length = N * 64) (h : ∀ i, i < N → blockAt A i = blockAt B i) : A = B := by
+  apply List.ext_getElem?
+  intro idx
+  by_cases hi : idx < N * 64
+  · have h1 := congrArg (fun l : List UInt8 => l[idx % 64]?) (h (idx / 64) (by omega))
+    simp only [getElem?_blockAt] at h1
+    have hm : idx % 64 < 64 := by omega
+    have e : idx / 64 * 64 + idx % 64 = idx := by omega
+    simpa only [hm, if_true, e] using h1
+  · rw [List.getElem?_eq_none (by omega), List.getElem?_eq_none (by omega)]
+
+/-! ## `flatMap` of 64-byte blocks -/
+
+theorem length_flatMap64 {α : Type} (l : List α) (f : α → List UInt8)
+    (hf : ∀ x ∈ l, (f x).length = 64) : (l.flatMap f).length = l.length * 64 := by
+  induction l with
+  | nil => rfl
+  | cons a t ih =>
+    rw [List.flatMap_cons, List.length_append, ih (fun x hx => hf x (List.mem_cons_of_mem _ hx)),
+      hf a (List.mem_cons_self ..), List.length_cons]
+    omega
+
+theorem blockAt_flatMap {α : Type} (l : List α) (f : α → List UInt8)
+    (hf : ∀ x ∈ l, (f x).length = 64) (i : Nat) (hi : i < l.length) :
+    blockAt (l.flatMap f) i = f l[i] := by
+  induction l generalizing i with
+  | nil => exact absurd hi (Nat.not_lt_zero _)
+  | cons a t ih =>
+    have ha : (f a).length = 64 := hf a (List.mem_cons_self ..)
+    have ht : ∀ x ∈ t, (f x).length = 64 := fun x hx => hf x (List.mem_cons_of_mem _ hx)
+    rw [List.flatMap_cons]
+    cases i with
+    | zero =>
+      rw [List.getElem_cons_zero]
+      apply List.ext_getElem?
+      intro j
+      rw [getElem?_blockAt]
+      by_cases hj : j < 64
+      · simp only [hj, if_true]
+        rw [List.getElem?_append_left (by omega)]
+        congr 1
+        omega
+      · simp only [hj, if_false]
+        exact (List.getElem?_eq_none (by omega)).symm
+    | succ i =>
+      rw [List.getElem_cons_succ, ← ih ht i (by simpa using hi)]
+      apply List.ext_getElem?
+      intro j
+      rw [getElem?_blockAt, getElem?_blockAt]
+      by_cases hj : j < 64
+      · simp only [hj, if_true]
+        rw [List.getElem?_append_right (by omega)]
+        congr 1
+        omega
+      · simp only [hj, if_false]
+
+/-! ## sequences of writes -/
+
+theorem length_applyWrites_ge (data : List UInt8) (ws : List (Nat × List UInt8)) :
+    data.length ≤ (applyWrites data ws).length := by
+  induction ws generalizing data with
+  | nil => exact Nat.le_refl _
+  | cons w ws ih =>
+    rw [applyWrites_cons]
+    have h := ih (writeAt data (w.1 * 64) w.2)
+    rw [length_writeAt] at h
+    omega
+
+theorem length_applyWrites_ge_of_mem (data : List UInt8) (ws : List (Nat × List UInt8))
+    (w : Nat × List UInt8) (hm : w ∈ ws) :
+    w.1 * 64 + w.2.length ≤ (applyWrites data ws).length := by
+  induction ws generalizing data with
+  | nil => cases hm
+  | cons w' ws ih =>
+    rw [applyWrites_cons]
+    rcases List.mem_cons.1 hm with h | h
+    · subst h
+      have h := length_applyWrites_ge (writeAt data (w.1 * 64) w.2) ws
+      rw [length_writeAt] at h
+      omega
+    · exact ih _ h
+
+/-- every intermediate state stays within `N*64` bytes -/
+theorem length_applyWrites_le (init : List UInt8) (ws : List (Nat × List UInt8)) (N : Nat)
+    (hws : ∀ w ∈ ws, w.1 < N ∧ w.2.length = 64) (hinit : init.length ≤ N * 64) :
+    (applyWrites init ws).length ≤ N * 64 := by
+  induction ws generalizing init with
+  | nil => exact hinit
+  | cons w ws ih =>
+    rw [applyWrites_cons]
+    apply ih _ (fun w' hw' => hws w' (List.mem_cons_of_mem _ hw'))
+    have h := hws w (List.mem_cons_self ..)
+    rw [length_writeAt]
+    omega
+
+theorem length_applyWrites_eq (init : List UInt8) (ws : List (Nat × List UInt8)) (N : Nat)
+    (hws : ∀ w ∈ ws, w.1 < N ∧ w.2.length = 64) (hinit : init.length = N * 64) :
+    (applyWrites init ws).length = N * 64 := by
+  apply Nat.le_antisymm
+  · exact length_applyWrites_le init ws N hws (Nat.le_of_eq hinit)
+  · have h := length_applyWrites_ge init ws
+    omega
+
+/-- writes to other slots keep a complete block -/
+theorem blockAt_applyWrites_of_not_mem (data : List UInt8) (ws : List (Nat × List UInt8))
+    (s : Nat) (hws : ∀ w ∈ ws, w.2.length = 64) (hs : s ∉ ws.map Prod.fst)
+    (hlen : s * 64 + 64 ≤ data.length) :
+    blockAt (applyWrites data ws) s = blockAt data s := by
+  induction ws generalizing data with
+  | nil => rfl
+  | cons w ws ih =>
+    rw [applyWrites_cons]
+    simp only [List.map_cons, List.mem_cons, not_or] at hs
+    rw [ih _ (fun w' hw' => hws w' (List.mem_cons_of_mem _ hw')) hs.2
+      (by rw [length_writeAt]; omega)]
+    exact blockAt_writeAt_ne data w.1 w.2 s (hws w (List.mem_cons_self ..)) hs.1 hlen
+
+/-- with pairwise distinct slots, each written block survives to the end -/
+theorem blockAt_applyWrites_of_mem (data : List UInt8) (ws : List (Nat × List UInt8))
+    (hws : ∀ w ∈ ws, w.2.length = 64) (hnd : (ws.map Prod.fst).Nodup)
+    (s : Nat) (b : List UInt8) (hm : (s, b) ∈ ws) :
+    blockAt (applyWrites data ws) s = b := by
+  induction ws generalizing data with
+  | nil => cases hm
+  | cons w ws ih =>
+    rw [applyWrites_cons]
+    simp only [List.map_cons, List.nodup_cons] at hnd
+    have hws' : ∀ w' ∈ ws, w'.2.length = 64 := fun w' hw' => hws w' (List.mem_cons_of_mem _ hw')
+    rcases List.mem_cons.1 hm with h | h
+    · subst h
+      have hb : b.length = 64 := hws (s, b) (List.mem_cons_self ..)
+      have hl : s * 64 + 64 ≤ (writeAt data (s * 64) b).length := by
+        rw [length_writeAt]
+        omega
+      rw [blockAt_applyWrites_of_not_mem _ ws s hws' hnd.1 hl]
+      exact blockAt_writeAt_self data s b hb
+    · exact ih _ hws' hnd.2 h
+
+/-- MAIN: writing, in ANY order `T` (a permutation of `P`), the block `f x` at slot `slot x`, where
+`slot` enumerates `P` (`slot P[i] = i`), onto any initial backing not longer than the result
+(stale bytes allowed, shorter backings are zero-extended by `writeAt`) yields exactly the
+concatenation of the blocks in `P`-order. -/
+theorem applyWrites_perm {α : Type} (P T : List α) (slot : α → Nat) (f : α → List UInt8)
+    (init : List UInt8) (hperm : T.Perm P) (hslot : ∀ i (h : i < P.length), slot P[i] = i)
+    (hf : ∀ x ∈ P, (f x).length = 64) (hinit : init.length ≤ P.length * 64) :
+    applyWrites init (T.map fun x => (slot x, f x)) = P.flatMap f := by
+  have hslotlt : ∀ x ∈ T, slot x < P.length := by
+    intro x hx
+    obtain ⟨i, h, e⟩ := List.mem_iff_getElem.1 (hperm.mem_iff.1 hx)
+    rw [← e, hslot i h]
+    exact h
+  generalize hwsdef : (T.map fun x => (slot x, f x)) = ws
+  have hws : ∀ w ∈ ws, w.1 < P.length ∧ w.2.length = 64 := by
+    intro w hw
+    rw [← hwsdef] at hw
+    obtain ⟨x, hx, rfl⟩ := List.mem_map.1 hw
+    exact ⟨hslotlt x hx, hf x (hperm.mem_iff.1 hx)⟩
+  have hws2 : ∀ w ∈ ws, w.2.length = 64 := fun w hw => (hws w hw).2
+  have hPslot : P.map slot = List.range P.length := by
+    apply List.ext_getElem
+    · rw [List.length_map, List.length_range]
+    · intro i h1 h2
+      rw [List.getElem_map, List.getElem_range]
+      exact hslot i _
+  have hnd : (ws.map Prod.fst).Nodup := by
+    have e : ws.map Prod.fst = T.map slot := by
+      rw [← hwsdef, List.map_map]
+      rfl
+    rw [e, (hperm.map slot).nodup_iff, hPslot]
+    exact List.nodup_range
+  have hmemws : ∀ i (h : i < P.length), (i, f P[i]) ∈ ws := by
+    intro i h
+    have h1 : P[i] ∈ T := hperm.mem_iff.2 (List.getElem_mem h)
+    have h2 : (slot P[i], f P[i]) ∈ T.map (fun x => (slot x, f x)) :=
+      List.mem_map.2 ⟨P[i], h1, rfl⟩
+    rw [hslot i h, hwsdef] at h2
+    exact h2
+  have hlen : (applyWrites init ws).length = P.length * 64 := by
+    apply Nat.le_antisymm
+    · exact length_applyWrites_le init ws P.length hws hinit
+    · by_cases hP : P.length = 0
+      · omega
+      · have hlast : P.length - 1 < P.length := by omega
+        have h1 := length_applyWrites_ge_of_mem init ws _ (hmemws (P.length - 1) hlast)
+        have h2 := hws2 _ (hmemws (P.length - 1) hlast)
+        simp only at h1 h2
+        omega
+  apply ext_blockAt _ _ P.length hlen (length_flatMap64 P f hf)
+  intro i hi
+  rw [blockAt_flatMap P f hf i hi]
+  exact blockAt_applyWrites_of_mem init ws hws2 hnd i _ (hmemws i hi)
+
+/-- special case `T = P`: writing the blocks in slot order -/
+theorem applyWrites_seq {α : Type} (P : List α) (slot : α → Nat) (f : α → List UInt8)
+    (init : List UInt8) (hslot : ∀ i (h : i < P.length), slot P[i] = i)
+    (hf : ∀ x ∈ P, (f x).length = 64) (hinit : init.length ≤ P.length * 64) :
+    applyWrites init (P.map fun x => (slot x, f x)) = P.flatMap f :=
+  applyWrites_perm P P slot f init (List.Perm.refl P) hslot hf hinit
+
 end Bao.WriteAtL
